@@ -161,7 +161,7 @@ impl MatchableTrait for Sequence {
                 }
 
                 if self.parse_mode == ParseMode::Strict || matched_idx == start_idx {
-                    return Ok(MatchResult::empty_at(idx));
+                    return Ok(MatchResult::empty_at(start_idx));
                 }
 
                 insert_segments.extend(meta_buffer.into_iter().map(|meta| (matched_idx, meta)));
@@ -187,11 +187,11 @@ impl MatchableTrait for Sequence {
                 }
 
                 if self.parse_mode == ParseMode::Strict {
-                    return Ok(MatchResult::empty_at(idx));
+                    return Ok(MatchResult::empty_at(start_idx));
                 }
 
                 if self.parse_mode == ParseMode::GreedyOnceStarted && matched_idx == start_idx {
-                    return Ok(MatchResult::empty_at(idx));
+                    return Ok(MatchResult::empty_at(start_idx));
                 }
 
                 if matched_idx == start_idx {
